@@ -478,6 +478,9 @@ func (r *Run) Finish() {
 	cov["evaluations"] = evals
 	cov["distinct_nontrivial"] = set(r.DistinctSet)
 	cov["rule"] = r.Rule
+	if r.p.Samples == nil {
+		r.p.Samples = []interface{}{}
+	}
 	cov["samples"] = r.p.Samples
 	if r.Level == "model_checking" {
 		cov["states"] = set(r.StateSet)
